@@ -90,7 +90,7 @@ theorem lookup_step (L : Lawful P Ok) {cfg : Cfg} (hn : 0 < cfg.nshards) {c : Ca
     · exact Or.inl h
     · rw [h]; exact hcur
   cases op with
-  | ins key ver weight hint phantom =>
+  | ins key ver weight hint phantom loc age =>
     simp only [Cache.step]
     split
     · rename_i hnone
@@ -103,7 +103,7 @@ theorem lookup_step (L : Lawful P Ok) {cfg : Cfg} (hn : 0 < cfg.nshards) {c : Ca
       have hsi := hc.shard _ s hs
       cases phantom with
       | true =>
-        have sp := emplace_phantom_spec (r := { id := c.nextId, key, hash := cfg.H key, ver, weight, hint, phantom := true }) L hsi rfl
+        have sp := emplace_phantom_spec (r := { id := c.nextId, key, hash := cfg.H key, ver, weight, hint, phantom := true, loc, age }) L hsi rfl
         generalize Shard.emplace P s _ = res at sp
         obtain ⟨s', lv, pk⟩ := res
         obtain ⟨_, _, _, hsub, hnok, _, _⟩ := sp
@@ -134,7 +134,7 @@ theorem lookup_step (L : Lawful P Ok) {cfg : Cfg} (hn : 0 < cfg.nshards) {c : Ca
                 rw [← h, this]
           · exact hcur
       | false =>
-        have sp := emplace_spec (r := { id := c.nextId, key, hash := cfg.H key, ver, weight, hint, phantom := false }) L hsi rfl
+        have sp := emplace_spec (r := { id := c.nextId, key, hash := cfg.H key, ver, weight, hint, phantom := false, loc, age }) L hsi rfl
           (fun x hx => Nat.ne_of_lt (hc.fresh _ s hs x hx))
         generalize Shard.emplace P s _ = res at sp
         obtain ⟨s', lv, pk⟩ := res
@@ -410,7 +410,7 @@ theorem held_stable (cfg : Cfg) (c : Cache σ) (op : Op) (rid : Nat) (x : Rec)
     (h : heldFind c.held rid = some x) (hop : op ≠ .drop rid) :
     heldFind (Cache.step P cfg c op).1.held rid = some x := by
   cases op with
-  | ins key ver weight hint phantom =>
+  | ins key ver weight hint phantom loc age =>
     simp only [Cache.step]; split
     · exact h
     · exact heldFind_inc _ _ _ _ h
